@@ -377,6 +377,13 @@ func originRuleMsg(id string, props []string, entry string, floor int, msg strin
 				fk := FuncKey(topFunc(o.Fn))
 				construct := "origin:" + o.Kind + "(" + o.Name + ")"
 				if v, ok := table[k]; ok {
+					if prem, has := originPremises[entry+" | "+k]; has {
+						// the reason of the entry rests on a fact about other code: checked, not assumed
+						if holds, why := prem(e); !holds {
+							r.Bad(fk, construct+" [premise]", "the reviewed reason for excluding this origin ("+v.reason+") no longer holds: "+why+"; the error can now reach "+entry, nil, pos)
+							continue
+						}
+					}
 					r.OK(fk, construct, v.kind+": "+v.reason, pos)
 				} else {
 					r.Bad(fk, construct, "a business error created here can propagate to "+entry+", "+msg, nil, pos)
@@ -560,4 +567,27 @@ func ctorFamily(k string) string {
 		return "fmt.Errorf"
 	}
 	return k
+}
+
+
+// originPremises: table entries whose reason is a statement about other code carry that statement as a check.
+var originPremises = map[string]func(e *Engine) (bool, string){
+	// "validator info exists only for staking validators; AfterValidatorRemoved deletes it" - round 13 (C17m): once the
+	// removal hook keeps the record of a removed validator (for instance while it carries shares, which is what a repair
+	// of F14 has to do), every end-of-block walk over the info records looks up a validator that x/staking no longer
+	// has; whether that error is swallowed or returned is then what decides between a silent skip and a halted chain.
+	"alliance.EndBlocker | keeper.Keeper.GetAllianceValidator | NEW(fmt.Errorf#1)": func(e *Engine) (bool, string) {
+		fn := e.Fn("keeper.Hooks.AfterValidatorRemoved")
+		if fn == nil {
+			return false, "keeper.Hooks.AfterValidatorRemoved does not resolve"
+		}
+		dels := callsAsInstrs(CallsTo(fn, "keeper.Keeper.DeleteValidatorInfo"))
+		if len(dels) == 0 {
+			return false, "AfterValidatorRemoved no longer deletes the validator info"
+		}
+		if trail := e.FA(fn).EntryMustPass(dels); trail != nil {
+			return false, "AfterValidatorRemoved can return successfully without deleting the validator info (" + strings.Join(trail, " -> ") + "): info records of validators that x/staking has removed stay behind and the end-of-block lookups of them fail"
+		}
+		return true, ""
+	},
 }
